@@ -58,8 +58,14 @@ def pick_idents(r, n, pool=None, avoid_snake_collisions=False):
 
 def rand_fields(r, kind, nmax=3, types=None, generics=None, distinct_types=False):
     types = list(types or SAFE_TYPES)
-    if generics in ("T", "Tw", "TU", "aT", "TN"):
+    if generics in ("T", "Tw", "TU", "aT", "TN", "aTw"):
         types.append("T")
+    if generics == "aTw":
+        types.append("RefStr")
+    if generics == "I":
+        types.append("Item")
+    if generics == "aI":
+        types.append("RefItem")
     if generics == "TU":
         types.append("U")
     if generics in ("a", "aT"):
@@ -82,7 +88,8 @@ def rand_fields(r, kind, nmax=3, types=None, generics=None, distinct_types=False
 def ensure_generics_used(r, spec):
     """Every declared generic parameter must be used by some field, otherwise rustc rejects the enum."""
     g = spec.generics
-    need = {"T": ["T"], "Tw": ["T"], "TU": ["T", "U"], "a": ["RefStr"], "aT": ["RefStr", "T"], "N": ["CG"], "TN": ["T", "CG"]}.get(g, [])
+    need = {"T": ["T"], "Tw": ["T"], "TU": ["T", "U"], "a": ["RefStr"], "aT": ["RefStr", "T"], "N": ["CG"], "TN": ["T", "CG"],
+            "aTw": ["RefStr", "T"], "I": ["Item"], "aI": ["RefItem"]}.get(g, [])
     used = {f.ty for v in spec.variants for f in v.fields}
     missing = [t for t in need if t not in used]
     if not missing:
